@@ -211,6 +211,16 @@ def ld_terms(e, sign=1, out=None, depth=0):
                     for idx, val in stores:
                         ld_terms(val, s2, out, depth + 1)
                     continue
+                if last == "where":
+                    # torch.where(region, a, b) / a.where(region, b): an element-wise case
+                    # distinction, each branch a leaf of its own (as the masked stores above)
+                    ops = list(c.args)
+                    if isinstance(c.func, ast.Attribute) and not (isinstance(c.func.value, ast.Name) and c.func.value.id in ("torch", "np")):
+                        ops = [ops[0], c.func.value] + ops[1:] if ops else ops
+                    if len(ops) == 3:
+                        ld_terms(ops[1], s2, out, depth + 1)
+                        ld_terms(ops[2], s2, out, depth + 1)
+                        continue
             if isinstance(c, (ast.BinOp, ast.UnaryOp)) and (isinstance(c, ast.UnaryOp) or isinstance(c.op, (ast.Add, ast.Sub))):
                 ld_terms(c, s2, out, depth + 1)
                 continue
@@ -583,19 +593,38 @@ def ld_mult_rule(ctx):
     if fi is None:
         res.undecide("OneByOneConvolution", "_lu_forward_inverse missing")
     else:
-        okc = False
+        # axis-layout algebra (nfstatic/axes.py): the per-row log-dets [(B*H*W)] of the LU
+        # transform must come back as [B] with exactly the pixel axes H and W summed away
+        from ..axes import AxisEval, Mismatch, Unknown, image_env, show, strip_layout_ops
+
         for path in paths_of(fi.node):
             if path.kind != "return":
                 continue
             ld = _ld_of_path(path)
-            if isinstance(ld, ast.Call) and _last(ld) == "sum_except_batch" and ld.args:
-                inner = ld.args[0]
-                if isinstance(inner, ast.Call) and _last(inner) in ("reshape", "view") and [norm_text(a) for a in inner.args] in (["__component__(inputs.shape, 0)", "__component__(inputs.shape, 2)", "__component__(inputs.shape, 3)"],) and is_component(inner.func.value):
-                    okc = True
-            if okc:
-                res.ok("OneByOneConvolution: per-pixel matrix log-dets reshaped to (b, h, w) and summed")
+            if ld is None:
+                res.undecide("OneByOneConvolution._lu_forward_inverse", "does not return a pair")
+                continue
+            ev = AxisEval(image_env())
+            try:
+                lay = ev.ev(ld)
+            except Mismatch as m:
+                res.fail(Finding("LD-MULT", fi.module, fi.qualname, path.ret_node, "the 1x1 convolution's log-det: %s" % m.msg))
+                continue
+            except Unknown as u:
+                res.undecide("OneByOneConvolution._lu_forward_inverse", "cannot follow the axes of the log-det `%s` (%s)" % (norm_text(ld)[:60], u))
+                continue
+            summed = sorted(a[0] for op, atoms in ev.reduced if op in ("sum", "sum_except_batch") for a in atoms)
+            other = [(op, [a[0] for a in atoms]) for op, atoms in ev.reduced if op not in ("sum", "sum_except_batch") and atoms]
+            rows = [l for _c, ls in ev.row_calls for l in ls[:1]]
+            per_pixel = any(sorted(a[0] for a in l[0]) == ["B", "H", "W"] for l in rows if l)
+            core = strip_layout_ops(ld)
+            if not (is_component(core) and const_number(core.args[1]) == 1 and isinstance(core.args[0], ast.Call)):
+                res.fail(Finding("LD-MULT", fi.module, fi.qualname, path.ret_node, "the 1x1 convolution's log-det must be the LU transform's own per-row log-det, only re-arranged and summed over the pixels; found `%s` underneath the re-arrangements" % brief(core, 70)))
+                continue
+            if lay == (image_env()["inputs"][0],) and summed == ["H", "W"] and not other and per_pixel:
+                res.ok("OneByOneConvolution: the matrix log-det of every pixel row, laid out %s, summed over H and W per batch item" % show(rows[0]))
             else:
-                res.fail(Finding("LD-MULT", fi.module, fi.qualname, path.ret_node, "the 1x1 convolution applies the matrix at every pixel: its log-det must be the per-row log-dets reshaped to (b, h, w) and summed over h and w"))
+                res.fail(Finding("LD-MULT", fi.module, fi.qualname, path.ret_node, "the 1x1 convolution applies the matrix at every pixel: its log-det must be the per-row log-dets summed over exactly the pixel axes h and w for each batch item (found: result axes %s, summed axes %s%s)" % (show(lay), summed, (", other reductions %s" % other) if other else "")))
     # PointwiseAffineTransform: scalar or broadcast scale
     pa = p.find_class("PointwiseAffineTransform", "nflows.transforms.standard")
     fi = pa.methods.get("_batch_logabsdet")
